@@ -38,7 +38,8 @@ RESIDUE = ["HDF5's own semantics are modelled, not verified", "file truncation b
            "concurrent access / locking is not modelled"]
 
 PATHS = ["/", "/x", "/x/y", "/z"]
-PROBES = ["/", "/x", "/x/y", "/z", "/z/y", "/x/x", "/x/y/y", "/x/y/x", "/nope", "/x/nope", "/x/bins", "/x/pixels/count"]
+PROBES = ["/", "/x", "/x/y", "/z", "/z/y", "/x/x", "/x/y/y", "/x/y/x", "/nope", "/x/nope", "/x/bins", "/x/pixels/count",
+          "/y", "/e", "/a/b"]
 STD_ATTRS = ("bin-size", "bin-type", "format", "format-version", "genome-assembly", "metadata", "nbins", "nchroms",
              "nnz", "storage-mode", "sum")
 
@@ -188,8 +189,8 @@ def oracle_step(d, op, outcome, S0, S1, listing, iscool):
     for f in G.FILES:
         for q in PROBES:
             key = (f, q)
-            before = (S0["dig"][key], S0["extra"][key])
-            after = (S1["dig"][key], S1["extra"][key])
+            before = (S0["dig"][key], S0["extra"][key] or [])
+            after = (S1["dig"][key], S1["extra"][key] or [])
             slots = S0["slots"][key] | S1["slots"][key]
             touches_trunc = trunc is not None and (f == trunc or any(s[0] == trunc for s in slots))
             if touches_trunc:
@@ -299,7 +300,7 @@ def observe_impl(d, full=False):
     for f in G.FILES:
         fn = os.path.join(d, f + ".cool")
         dump = G.canon_dump(light_dump(G.raw_dump(d, f, 3)))
-        o, v = G.guarded(fileops.list_coolers, fn)
+        o, v = G.guarded(shallow_stack, fileops.list_coolers, fn)
         listing = [o, v if o == "Ok" else []]
         ic = {}
         for q in PROBES:
@@ -307,6 +308,21 @@ def observe_impl(d, full=False):
             ic[q] = (bool(v2) if o2 == "Ok" else o2)
         obs[f] = {"dump": dump, "listing": listing, "is_cooler": ic}
     return obs
+
+
+def shallow_stack(fn, *a):
+    """call fn with the interpreter's recursion limit lowered to ~150 frames above the current depth:
+    a traversal that recurses without end raises the same RecursionError, only sooner (on a link cycle
+    the default limit of 1000 lets the traversal visit tens of thousands of nodes first)"""
+    import inspect
+    import sys
+    old = sys.getrecursionlimit()
+    depth = len(inspect.stack(0))
+    sys.setrecursionlimit(depth + 150)
+    try:
+        return fn(*a)
+    finally:
+        sys.setrecursionlimit(old)
 
 
 def light_dump(entries):
